@@ -849,8 +849,29 @@ theorem stepGvcfs_zero_batch (flog : Nat → Nat) (s : Plan) (hb : s.batch = 0) 
     subst hb
     cases n <;> simp
 
-theorem clampBatch_pos {nIv v : Nat} (hn : nIv ≤ mergeTaskLimit) (hv : 1 ≤ v) : 1 ≤ clampBatch nIv v := by
+theorem clampBatch_pos {nIv v : Nat} (hv : 1 ≤ v) : 1 ≤ clampBatch nIv v := by
   unfold clampBatch
+  split
+  · exact Nat.le_max_left _ _
+  · exact hv
+
+theorem clampBatch_le {nIv v : Nat} (hv : 1 ≤ v) : clampBatch nIv v ≤ v := by
+  unfold clampBatch
+  split
+  next h =>
+    have hpos : 0 < nIv := by
+      rcases Nat.eq_zero_or_pos nIv with h0 | h0
+      · subst h0; simp at h
+      · exact h0
+    have : mergeTaskLimit / nIv ≤ v := by
+      apply Nat.le_of_lt_succ
+      rw [Nat.div_lt_iff_lt_mul hpos]
+      exact Nat.lt_of_lt_of_le h (Nat.mul_le_mul_right _ (Nat.le_succ v))
+    exact Nat.max_le.2 ⟨hv, this⟩
+  · exact Nat.le_refl _
+
+theorem clampBatchOld_pos {nIv v : Nat} (hn : nIv ≤ mergeTaskLimit) (hv : 1 ≤ v) : 1 ≤ clampBatchOld nIv v := by
+  unfold clampBatchOld
   split
   next h =>
     have hpos : 0 < nIv := by
@@ -859,5 +880,84 @@ theorem clampBatch_pos {nIv v : Nat} (hn : nIv ≤ mergeTaskLimit) (hv : 1 ≤ v
       · exact h0
     exact (Nat.le_div_iff_mul_le hpos).2 (by omega)
   · exact hv
+
+/-! ### runs with failures inside steps -/
+
+theorem runFaulty_props (flog : Nat → Nat) : ∀ (os : List Outcome) (r : RunSt), WF r.mem → FinalsOK r.mem →
+    WF (runFaulty flog os r).mem ∧ FinalsOK (runFaulty flog os r).mem
+      ∧ (allLeaves (runFaulty flog os r).mem).Perm (allLeaves r.mem)
+      ∧ totalN (runFaulty flog os r).mem = totalN r.mem
+      ∧ (planMeasure r.mem ≤ (os.filter (· = Outcome.done)).length ∨ finished r.mem = true →
+          finished (runFaulty flog os r).mem = true) := by
+  intro os
+  induction os with
+  | nil =>
+    intro r hw hf
+    refine ⟨hw, hf, List.Perm.refl _, rfl, ?_⟩
+    rintro (h | h)
+    · simp only [runFaulty]
+      rw [finished_iff]
+      simp only [List.filter_nil, List.length_nil] at h
+      unfold planMeasure at h
+      exact ⟨List.length_eq_zero_iff.1 (by omega), List.length_eq_zero_iff.1 (by omega)⟩
+    · exact h
+  | cons o os ih =>
+    intro r hw hf
+    simp only [runFaulty]
+    cases o with
+    | done =>
+      have hw1 := step_WF flog r.mem hw
+      have hf1 := step_finalsOK flog r.mem hf
+      obtain ⟨w2, f2, l2, t2, fin2⟩ := ih (iter flog .done r) hw1 hf1
+      refine ⟨w2, f2, l2.trans (step_leaves flog r.mem hw), by rw [t2]; exact step_totalN flog r.mem hw, ?_⟩
+      intro h
+      apply fin2
+      cases hfs : finished r.mem with
+      | true => right; show finished (step flog r.mem) = true; rw [step_of_finished flog _ hfs]; exact hfs
+      | false =>
+        left
+        have hm := step_measure flog r.mem hw hfs
+        rcases h with h | h
+        · simp only [List.filter_cons, decide_true, if_true, List.length_cons] at h
+          show planMeasure (step flog r.mem) ≤ _
+          omega
+        · rw [hfs] at h; cases h
+    | fault =>
+      have hw1 := reload_WF flog r.mem hw
+      have hf1 := reload_finalsOK flog r.mem hf
+      obtain ⟨w2, f2, l2, t2, fin2⟩ := ih (iter flog .fault r) hw1 hf1
+      refine ⟨w2, f2, l2.trans (reload_leaves flog r.mem), by rw [t2]; exact reload_totalN flog r.mem, ?_⟩
+      intro h
+      apply fin2
+      rcases h with h | h
+      · left
+        show planMeasure (reload flog r.mem) ≤ _
+        rw [reload_measure]
+        simpa [List.filter_cons] using h
+      · right
+        show finished (reload flog r.mem) = true
+        rw [reload_finished]; exact h
+
+/-- what a finished plan has produced, given the invariants of a run -/
+theorem finished_result {s : Plan} {inputs : List Nat} {total : Nat} (hf : FinalsOK s) (hfin : finished s = true)
+    (hl : (allLeaves s).Perm inputs) (ht : totalN s = total) (hne : inputs ≠ []) :
+    s.gvcfs = [] ∧ s.vdses = [] ∧ ∃ d, s.finals = [d] ∧ d.leaves.Perm inputs ∧ d.n = total := by
+  have hdone := (finished_iff s).1 hfin
+  have hs_leaves : allLeaves s = s.finals.flatMap (·.leaves) := by
+    unfold allLeaves; rw [hdone.1, hdone.2]; rfl
+  have hs_tot : totalN s = (s.finals.map (·.n)).sum := by
+    unfold totalN; rw [hdone.1, hdone.2]; simp only [List.length_nil, List.map_nil, List.sum_nil, Nat.zero_add]
+  refine ⟨hdone.1, hdone.2, ?_⟩
+  rcases hf with hnil | ⟨_, hlen⟩
+  · exfalso
+    have : allLeaves s = [] := by rw [hs_leaves, hnil]; rfl
+    rw [this] at hl
+    exact hne (List.Perm.nil_eq hl).symm
+  · obtain ⟨d, hd⟩ := List.length_eq_one_iff.1 hlen
+    refine ⟨d, hd, ?_, ?_⟩
+    · have : allLeaves s = d.leaves := by rw [hs_leaves, hd]; simp
+      rw [← this]; exact hl
+    · have : totalN s = d.n := by rw [hs_tot, hd]; simp
+      rw [← this]; exact ht
 
 end HailVerif.Combiner
